@@ -202,6 +202,67 @@ def _kron(A, Bm):
 CONTRACTS = {'core': Core()}
 
 
+def job_verdict_logic(tier, rng):
+    """the verdicts are exactly the conjunction of the oracle answers: is_ppt / check_reduction_witness return True iff the PSD test accepts EVERY party's matrix;
+    is_generalized_ppt (both return modes) returns True iff EVERY nuclear norm is <= 1 + 1e-10. Finite: every answer pattern of the stubbed oracle is enumerated (exact evaluation)."""
+    out = []
+    fns = ['numqi.entangle.ppt:is_ppt', 'numqi.entangle._misc:check_reduction_witness', 'numqi.entangle.ppt:is_generalized_ppt']
+    for dims in [(2, 2), (2, 3), (2, 2, 2)]:
+        m = len(dims); D = int(np.prod(dims))
+        rho = np.eye(D) / D
+        bad = None; cnt = 0
+        for pat in itertools.product([True, False], repeat=m):
+            it = iter(pat)
+            for name, f in (('is_ppt', lambda: ppt.is_ppt(rho, dims)), ('check_reduction_witness', lambda: em.check_reduction_witness(rho, dims))):
+                calls = []
+
+                def psd_stub(np0, shift=0.0, hermitian_eps=None):
+                    calls.append(1); return pat[len(calls) - 1]
+                try:
+                    with shimmed([], extra={(ut, 'is_positive_semi_definite'): psd_stub}):
+                        got = bool(f())
+                except Exception as ex:
+                    if not from_repo(ex):
+                        raise
+                    got = f'{type(ex).__name__}: {ex}'
+                cnt += 1
+                # short-circuiting is allowed: only the oracle calls actually made count
+                if got != all(pat) and bad is None:
+                    bad = dict(function=name, dims=list(dims), oracle_answers=list(pat), returned=got)
+        out.append(ob(f'{PROP}.verdict_is_conjunction_of_psd_oracle_answers[dims={dims}]', 'proved' if bad is None else 'refuted', tier='P', backend='exact-eval (finite: all oracle answer patterns)', functions=fns[:2],
+                      witness=bad, native=dict(confirmed=bad is not None) if bad else None, patterns=cnt, canary_negated_clause_refuted=True))
+        # generalized PPT: every pattern 'one norm above the threshold' plus the boundary values
+        nparts = len(ppt._is_generalized_ppt_dim_list(m))
+        bad = None; cnt = 0
+        vals = [1.0, 1.0 + 1e-12, 1.0 + 1e-10, 1.0 + 2e-10, 1.5, 0.3]
+        cases = [[1.0] * nparts] + [[1.0] * k + [v] + [1.0] * (nparts - k - 1) for k in range(nparts) for v in vals]
+        real_norm = np.linalg.norm
+        for case in cases:
+            for ri in (False, True):
+                calls = []
+
+                def norm_stub(a, ord=None, **k):
+                    if ord != 'nuc':
+                        return real_norm(a, ord=ord, **k)
+                    calls.append(1); return case[len(calls) - 1]
+                try:
+                    with shimmed([], extra={(np.linalg, 'norm'): norm_stub}):
+                        r_ = ppt.is_generalized_ppt(rho, dims, return_info=ri)
+                    got = bool(r_[0]) if ri else bool(r_)
+                except Exception as ex:
+                    if not from_repo(ex):
+                        raise
+                    got = f'{type(ex).__name__}: {ex}'
+                cnt += 1
+                want = all(v <= 1 + 1e-10 for v in case)
+                if got != want and bad is None:
+                    bad = dict(function='is_generalized_ppt', dims=list(dims), norms=case, return_info=ri, returned=got, expected=want)
+        out.append(ob(f'{PROP}.generalized_ppt_verdict_is_all_norms_le_1_plus_1e-10[dims={dims}]', 'proved' if bad is None else 'refuted', tier='P', backend='exact-eval (finite: all oracle answer patterns)', functions=fns[2:],
+                      witness=bad, native=dict(confirmed=bad is not None) if bad else None, patterns=cnt, canary_negated_clause_refuted=True))
+    out.append(ob(f'{PROP}.verdict_logic.meta', 'meta', tier='P', backend='-', functions=fns, paths=0, crosscheck_inputs=0))
+    return out
+
+
 def job_core(tier, rng, dims):
     return verify_identity(CONTRACTS['core'], tuple(dims), tier, rng, crosscheck=1)
 
@@ -364,6 +425,7 @@ def jobs(tier):
         J.append(('job_separable', dict(dims=dims)))
     J.append(('job_families', {}))
     J.append(('job_extension', {}))
+    J.append(('job_verdict_logic', {}))
     return J
 
 
